@@ -58,7 +58,14 @@ def eval_hist(case, engine, acc=None):
                     return default
                 return [bad[(core.h64('g13b', name) + j) % len(bad)] for j in range(n)]
         cli1['garble'] = G()
-    run1 = crash.session(world, path, cli1)
+    try:
+        run1 = crash.session(world, path, cli1)
+    except (core.RunTimeout, core.BudgetExceeded) as e:
+        mo = getattr(e, 'monitor', None)
+        bad = [(c, m_) for c, m_ in (mo.violations if mo else []) if c in H3]
+        if bad:
+            return [F(ID, c, c, f'run 1 (cut off: {e}): ' + m_) for c, m_ in bad[:3]]
+        raise
     for code, msg in run1.monitor.violations:
         if code in H3:
             fs.append(F(ID, code, code, 'run 1: ' + msg))
